@@ -180,6 +180,7 @@ def specNote (v : VSt) (goid : Nat) (point : String) (wid : Nat) (n : Nat) : VSt
   | "h.serve.hung" => (v, "?viol:serve-did-not-return")
   | "h.serve.early" => (v, "?viol:serve-returned-while-a-callback-was-still-running-shutdown-not-drained")
   | "h.serve2.accepted" => (v, "?viol:second-serve-on-a-running-service-was-not-refused")
+  | "h.serve.refused.stopped" => (v, "?viol:serve-refused-although-the-previous-serve-had-returned-with-an-error-before-starting")
   | "h.refused.running" => (v, "?viol:callback-submitted-to-a-running-service-never-ran")
   | "h.shutdown.refused" => (v, "?viol:shutdown-refused-on-a-running-service")
   | "h.panic" => (v, "?viol:api-call-panicked")
@@ -206,7 +207,7 @@ def verdictFor (mode spec : String) (restarted : Bool) : String :=
   let has (w : String) : Bool := (spec.splitOn w).length > 1
   let c01 := has "two-callbacks-of-group"
   let c02 := has "started-twice" || has "-before-" || has "never-accepted" || has "never-started"
-  let c03 := has "shutdown" || has "serve-did-not-return" || has "panicked" || has "connection-closed" || has "second-serve" || has "never-ran"
+  let c03 := has "shutdown" || has "serve-did-not-return" || has "panicked" || has "connection-closed" || has "second-serve" || has "never-ran" || has "serve-refused"
   match mode with
   | "pool01" => if c01 then spec else "?ok"
   | "pool02" => if c02 then spec else "?ok"
